@@ -89,7 +89,8 @@ theorem decodeBuf_good (b0 : Nat) (buf : List Nat) (v : SerFields) (h : decodeBu
     object at any depth repeats a key, every number is finite, and every quantity of the C08 table
     is inside its physical range -/
 theorem tryFrom_good (bs : List Nat) (d : Decoded) (h : tryFrom bs = .ok d) :
-    ∃ kvs, d = .json (.obj kvs) ∧ (keyIds kvs).Nodup ∧ Json.wfObj kvs = true ∧ Json.inRangeObj kvs = true := by
+    ∃ kvs, d = .json (.obj kvs) ∧ (keyIds kvs).Nodup ∧ Json.wfObj kvs = true ∧ Json.inRangeObj kvs = true ∧
+      ∀ k ∈ keyIds kvs, k ∉ timedKeys := by
   unfold tryFrom at h
   cases bs with
   | nil => cases h
@@ -106,8 +107,8 @@ theorem tryFrom_good (bs : List Nat) (d : Decoded) (h : tryFrom bs = .ok d) :
         split at h
         · cases h
         · cases h
-          obtain ⟨⟨fs, rfl, hn, _, hw⟩, hr⟩ := decodeBuf_good _ _ v hd
-          exact ⟨fs.toObj, rfl, hn, hw, hr fs rfl⟩
+          obtain ⟨⟨fs, rfl, hn, ha, hw⟩, hr⟩ := decodeBuf_good _ _ v hd
+          exact ⟨fs.toObj, rfl, hn, hw, hr fs rfl, ha⟩
 
 end Message
 end Rs1090.Model
